@@ -123,6 +123,8 @@ struct Baton {
 pub struct NodeSync {
     m: Mutex<Baton>,
     cv: Condvar,
+    /// Kernel thread id of the actor thread (0 until it reached `actor_start`).
+    tid: std::sync::atomic::AtomicI32,
 }
 
 impl NodeSync {
@@ -136,6 +138,7 @@ impl NodeSync {
                 panicked: false,
             }),
             cv: Condvar::new(),
+            tid: std::sync::atomic::AtomicI32::new(0),
         })
     }
 
@@ -335,6 +338,8 @@ impl Env for SimEnv {
             if let Some(n) = s.constructing.take() {
                 TL_NODE.with(|t| t.set(Some(n)));
                 TL_EPOCH.with(|e| e.set(EPOCH.load(Ordering::SeqCst)));
+                let tid = unsafe { libc::syscall(libc::SYS_gettid) } as i32;
+                s.nodes[n].sync.tid.store(tid, Ordering::SeqCst);
             }
         }
     }
@@ -470,6 +475,8 @@ pub struct NodeHandle {
     pub iterations: u64,
     /// The actor thread did not return from an iteration within the watchdog time.
     pub blocked: bool,
+    /// What the watchdog saw when it gave up on the actor thread.
+    pub blocked_why: Option<String>,
     contacted: BTreeSet<SocketAddrV4>,
     sync: Arc<NodeSync>,
     digest: u64,
@@ -606,7 +613,7 @@ pub struct FaultCfg {
 pub const DEFAULT_LATENCY: u64 = 10 * MS;
 
 /// Real-time limit for one granted loop iteration of an actor.
-pub const ITERATION_WATCHDOG_SECS: u64 = 20;
+pub const ITERATION_WATCHDOG_SECS: u64 = 5;
 
 pub fn full_fault_menu() -> Vec<Fate> {
     vec![
@@ -645,6 +652,61 @@ pub struct World {
     pub track_states: bool,
     pub state_digests: HashSet<u64>,
     next_dgram_id: u64,
+}
+
+/// Decides, from the actor thread's own scheduling state and CPU time (not from wall time),
+/// whether an iteration that has been running for a long time is stuck.
+#[derive(Default)]
+struct Watchdog {
+    first_cpu: Option<u64>,
+    asleep_since: Option<(Duration, u64)>,
+}
+
+enum DogVerdict {
+    KeepWaiting,
+    Stuck(String),
+}
+
+/// (state, utime+stime in clock ticks) of a thread of this process.
+fn thread_stat(tid: i32) -> Option<(char, u64)> {
+    let txt = std::fs::read_to_string(format!("/proc/self/task/{tid}/stat")).ok()?;
+    let rest = &txt[txt.rfind(')')? + 2..];
+    let f: Vec<&str> = rest.split_whitespace().collect();
+    let state = f.first()?.chars().next()?;
+    let utime: u64 = f.get(11)?.parse().ok()?;
+    let stime: u64 = f.get(12)?.parse().ok()?;
+    Some((state, utime + stime))
+}
+
+impl Watchdog {
+    fn sample(&mut self, tid: i32, waited: Duration) -> DogVerdict {
+        const HARD_CAP_SECS: u64 = 1800;
+        if waited > Duration::from_secs(HARD_CAP_SECS) {
+            panic!("MACHINERY: an actor iteration did not end within {HARD_CAP_SECS} s of real time and the thread is neither asleep nor burning CPU");
+        }
+        let Some((state, cpu)) = thread_stat(tid) else {
+            // No such thread any more (it is exiting): the phase will change.
+            return DogVerdict::KeepWaiting;
+        };
+        let ticks_per_sec = unsafe { libc::sysconf(libc::_SC_CLK_TCK) }.max(1) as u64;
+        let first = *self.first_cpu.get_or_insert(cpu);
+        if (cpu - first) / ticks_per_sec >= 30 {
+            return DogVerdict::Stuck(format!("spinning: {} s of CPU inside one iteration", (cpu - first) / ticks_per_sec));
+        }
+        if matches!(state, 'S' | 'D') {
+            match self.asleep_since {
+                Some((since, c)) if c == cpu => {
+                    if waited.saturating_sub(since) >= Duration::from_secs(10) {
+                        return DogVerdict::Stuck(format!("asleep (state {state}) for 10 s without consuming CPU"));
+                    }
+                }
+                _ => self.asleep_since = Some((waited, cpu)),
+            }
+        } else {
+            self.asleep_since = None;
+        }
+        DogVerdict::KeepWaiting
+    }
 }
 
 /// Guard making sure only one world exists per process.
@@ -781,6 +843,7 @@ impl World {
             next_iter_at: self.now,
             iterations: 0,
             blocked: false,
+            blocked_why: None,
             contacted: BTreeSet::new(),
             sync,
             digest: 0,
@@ -820,6 +883,7 @@ impl World {
             b.phase = Phase::Granted;
             sync.cv.notify_all();
             let started = std::time::Instant::now();
+            let mut dog = Watchdog::default();
             while !(b.phase == Phase::Parked || b.phase == Phase::Exited) {
                 let (g, _) = sync
                     .cv
@@ -827,14 +891,23 @@ impl World {
                     .unwrap_or_else(|e| e.into_inner());
                 b = g;
                 if started.elapsed() > Duration::from_secs(ITERATION_WATCHDOG_SECS) && !(b.phase == Phase::Parked || b.phase == Phase::Exited) {
-                    // The actor never came back from one loop iteration: it is blocked (or
-                    // spinning) inside the library. Give up on it; the thread is leaked.
-                    drop(b);
-                    let n = &mut self.nodes[node];
-                    n.alive = false;
-                    n.blocked = true;
-                    n.next_iter_at = u64::MAX;
-                    return;
+                    // The actor has not come back from one loop iteration for a long (real) time.
+                    // Real time alone proves nothing on a loaded machine, so the verdict comes from
+                    // the thread itself: asleep without consuming CPU for 10 s = blocked inside the
+                    // library (e.g. in a channel send); 30 s of CPU inside one iteration = spinning.
+                    // A thread that is merely starved keeps being waited for.
+                    match dog.sample(sync.tid.load(Ordering::SeqCst), started.elapsed()) {
+                        DogVerdict::KeepWaiting => continue,
+                        DogVerdict::Stuck(why) => {
+                            drop(b);
+                            let n = &mut self.nodes[node];
+                            n.alive = false;
+                            n.blocked = true;
+                            n.blocked_why = Some(why);
+                            n.next_iter_at = u64::MAX;
+                            return;
+                        }
+                    }
                 }
             }
             if b.phase == Phase::Exited {
@@ -940,6 +1013,22 @@ impl World {
 
     pub fn node_addr(&self, node: usize) -> SocketAddrV4 {
         self.nodes[node].cfg.addr()
+    }
+
+    /// Why a node's actor is gone (watchdog observation or the last panic message of an actor thread).
+    pub fn death_reason(&self, node: usize) -> String {
+        let n = &self.nodes[node];
+        if n.blocked {
+            return format!("stuck inside one loop iteration ({})", n.blocked_why.clone().unwrap_or_default());
+        }
+        match n.exited {
+            Some(true) => format!(
+                "panicked: {}",
+                crate::checks::LAST_ACTOR_PANIC.lock().unwrap_or_else(|e| e.into_inner()).clone().unwrap_or_else(|| "?".into())
+            ),
+            Some(false) => "left its loop".to_string(),
+            None => "alive".to_string(),
+        }
     }
 
     pub fn any_actor_panicked(&self) -> Option<usize> {
